@@ -316,7 +316,15 @@ func printStruct(sb *stringBuilder, s *parser.StructLike, structType string) {
 
 func printConstTypedValue(sb *stringBuilder, ctv *parser.ConstTypedValue) {
 	if ctv.Double != nil {
-		sb.writeString(strconv.FormatFloat(*ctv.Double, 'f', -1, 64))
+		text := strconv.FormatFloat(*ctv.Double, 'f', -1, 64)
+		if !strings.Contains(text, ".") {
+			if _, err := strconv.ParseInt(text, 10, 64); err != nil {
+				// written without a fraction the value is read back as an integer
+				// literal, which must fit 64 bits: use the exponent form instead
+				text = strconv.FormatFloat(*ctv.Double, 'e', -1, 64)
+			}
+		}
+		sb.writeString(text)
 	} else if ctv.Int != nil {
 		sb.writeString(fmt.Sprintf("%d", *ctv.Int))
 	} else if ctv.Literal != nil {
